@@ -1,11 +1,14 @@
 """C01 - structured control flow runs with its source-level meaning."""
 
+import copy
+from fractions import Fraction
+
 import fw
 import progen
 
 ID = 'C01'
 LEVEL = 'proof'
-LEAN_TARGETS = ['BareProofs.C01', 'BareProofs.C01Erase']
+LEAN_TARGETS = ['BareProofs.C01', 'BareProofs.C01Erase', 'BareProofs.C01Host']
 DRIVER = 'drv_c01'
 DRIVER_ROOT = 'Drv.C01'
 GEN = ['Consts']
@@ -16,6 +19,20 @@ THEOREMS = [
     'C01.ticked_erasure', 'C01.ticked_erasure_forward', 'C01.ticked_erasure_converse', 'C01.termination_iff',
     'C01.ticked_erasure_budget', 'C01.parse_exec_structured', 'C01.parse_exec_structured_budget',
     'C01.Tiny.while_continue_counterexample',
+    # C01Host: the erasure theorems on the concrete hosts (HostImpl.host, HostLib.hostLib), which do not satisfy HostNoReserved
+    'C01.hostNoReserved_sanitize', 'C01.truthyBool_sanitize', 'C01.sanitize_of_noReserved', 'C01.machine_g', 'C01.pure_g',
+    'C01.guard_execM₀', 'C01.guard_callValue₀', 'C01.guard_execute₀', 'C01.guard_execute', 'C01.guard_runT₀', 'C01.guard_runS',
+    'C01.real_eq_sanitized_execute', 'C01.real_eq_sanitized_execM₀', 'C01.guard_execute_dichotomy',
+    'C01.ticked_erasure_guarded', 'C01.parse_exec_structured_guarded', 'C01.parse_exec_structured_budget_guarded',
+    'C01.hostImpl_lib_treeOK', 'C01.hostImpl_other_treeOK', 'C01.hostLib_lib_treeOK', 'C01.hostLib_other_treeOK',
+    'C01.sanitize_hostImpl_lib', 'C01.sanitize_hostLib_lib', 'C01.hostImpl_truthyBool',
+    'C01.hostImpl_withoutGlobals_noReserved', 'C01.hostLib_withoutGlobals_noReserved',
+    'C01.parse_exec_structured_hostImpl', 'C01.ticked_erasure_hostImpl', 'C01.parse_exec_structured_budget_hostImpl',
+    'C01.parse_exec_structured_hostLib', 'C01.ticked_erasure_hostLib', 'C01.parse_exec_structured_budget_hostLib',
+    'C01.parse_exec_structured_hostImpl_noGlobals', 'C01.parse_exec_structured_hostLib_noGlobals',
+    'C01.hostImpl_not_noReserved', 'C01.hostLib_not_noReserved', 'C01.Demo.touching_program_differs',
+    'C01.Demo.impl_pure_run', 'C01.Demo.impl_machine_run', 'C01.Demo.lib_pure_run',
+    'C01.HostK.host_eq', 'C01.HostK.hostLib_eq',
 ]
 ASSUMPTIONS = [
     'expression evaluation is shared between the reference reading and the implementation (C01 is about control flow; operators are C03)',
@@ -130,6 +147,7 @@ def streams(ctx):
                             explained_by_f7=(ref7 is not None and ref7 == progen.strip_hidden(impl)))
     del models
     stream_history(ctx, parser, cases, impls)
+    stream_print_parse(ctx, parser)
 
 
 def stream_history(ctx, parser, cases, impls):
@@ -144,6 +162,258 @@ def stream_history(ctx, parser, cases, impls):
         if again != first:
             ctx.witness('history-independence', {'text': text, 'globals': g}, first, again, explained_by_f7=False)
             return
+
+
+# ---------------------------------------------------------------------------------------------------------------------
+# stream print-parse: the Lean PRINTER of structured programs (PrintScript.printScript Print.printExpr, the text the theorem
+# C01.parseScript_printExpr is about) tied to the real parser
+# ---------------------------------------------------------------------------------------------------------------------
+
+def _gen_name(kind, i):
+    return f'__bareScript{kind}{i}'
+
+
+def _jump(label, cond=None):
+    d = {'label': label}
+    if cond is not None:
+        d['expr'] = cond
+    return {'jump': d}
+
+
+def _not(e):
+    return {'unary': {'expr': e, 'op': '!'}}
+
+
+def py_lower(block, ctr, loop=None):
+    """Reference lowering of a structured program to the statement model, written from the language definition
+    (https://craigahobbs.github.io/bare-script/language/) independently of the Lean model: the expected value of
+    parse_script(text).  `ctr` = [label counter] (script-wide), `loop` = (break label, continue label, [continue used])."""
+    out = []
+    for s in block:
+        k = s['k']
+        if k == 'expr':
+            d = {'expr': s['e']}
+            if s.get('name'):
+                d['name'] = s['name']
+            out.append({'expr': d})
+        elif k == 'ret':
+            out.append({'return': {'expr': s['e']} if s.get('e') else {}})
+        elif k == 'label':
+            out.append({'label': s['name']})
+        elif k == 'jump':
+            out.append(_jump(s['name'], s.get('c')))
+        elif k == 'include':
+            out.append({'include': {'includes': [dict(({'system': True} if i.get('system') else {}), url=i['url']) for i in s['includes']]}})
+        elif k == 'break':
+            out.append(_jump(loop[0]))
+        elif k == 'continue':
+            loop[2][0] = True
+            out.append(_jump(loop[1]))
+        elif k == 'if':
+            i = ctr[0]
+            ctr[0] += 1
+            done, cur = _gen_name('Done', i), _gen_name('If', i)
+            els = s.get('else')
+            out.append(_jump(done if els is None else cur, _not(s['c'])))
+            out += py_lower(s['t'], ctr, loop)
+            while els is not None:
+                out += [_jump(done), {'label': cur}]
+                if els['k'] == 'else':
+                    out += py_lower(els['b'], ctr, loop)
+                    els = None
+                else:
+                    j = ctr[0]
+                    ctr[0] += 1
+                    cur = _gen_name('If', j)
+                    nxt = els.get('else')
+                    out.append(_jump(done if nxt is None else cur, _not(els['c'])))
+                    out += py_lower(els['t'], ctr, loop)
+                    els = nxt
+            out.append({'label': done})
+        elif k == 'while':
+            i = ctr[0]
+            ctr[0] += 1
+            done, lp = _gen_name('Done', i), _gen_name('Loop', i)
+            out += [_jump(done, _not(s['c'])), {'label': lp}]
+            out += py_lower(s['b'], ctr, (done, lp, [False]))      # `continue` jumps to the loop label (known finding F7)
+            out += [_jump(lp, s['c']), {'label': done}]
+        elif k == 'for':
+            i = ctr[0]
+            ctr[0] += 1
+            done, lp, cont = _gen_name('Done', i), _gen_name('Loop', i), _gen_name('Continue', i)
+            values, length = _gen_name('Values', i), _gen_name('Length', i)
+            ix = s.get('index') or _gen_name('Index', i)
+            used = [False]
+            out += [{'expr': {'expr': s['vals'], 'name': values}},
+                    {'expr': {'expr': progen.call('arrayLength', progen.var(values)), 'name': length}},
+                    _jump(done, _not(progen.var(length))),
+                    {'expr': {'expr': progen.num(0), 'name': ix}},
+                    {'label': lp},
+                    {'expr': {'expr': progen.call('arrayGet', progen.var(values), progen.var(ix)), 'name': s['value']}}]
+            out += py_lower(s['b'], ctr, (done, cont, used))
+            if used[0]:
+                out.append({'label': cont})
+            out += [{'expr': {'expr': progen.binop('+', progen.var(ix), progen.num(1)), 'name': ix}},
+                    _jump(lp, progen.binop('<', progen.var(ix), progen.var(length))),
+                    {'label': done}]
+        elif k == 'func':
+            d = {'name': s['name']}
+            if s['args']:
+                d['args'] = list(s['args'])
+            if s.get('async'):
+                d['async'] = True
+            if s.get('lastArgArray'):
+                d['lastArgArray'] = True
+            d['statements'] = py_lower(s['b'], ctr, None)
+            out.append({'function': d})
+        else:
+            raise ValueError(k)
+    return out
+
+
+def expected_model(prog):
+    return progen.round_script_numbers({'statements': py_lower(prog, [0])})
+
+
+URLS = ['a.bare', 'lib/b c.bare', "it's.bare", 'back\\slash.bare', "q\\'x", 'https://h.example/p?q=1&r=<2', 'tab\there', 'ends\\', "'", '']
+SYSTEM_URLS = ['args.bare', 'unittest.bare', 'a b', "it's", 'x\\y', '']
+LABELS = ['L1', 'top', '_x9', 'done', 'break_', 'elseX', 'If', 'ifx', 'jump1', 'returnx', 'else_', 'include', 'function']
+BAD_LABELS = ['é_no', 'else', '9x']     # not identifiers of the statement patterns / the else statement: the printer must say 'unprintable'
+
+
+def decorate(block, rng, depth=0):
+    """Add the statement kinds the generator leaves out (includes in both forms with awkward URLs, labels, jump/jumpif, async and
+    variadic function headers) at random places; never two include nodes next to each other (the parser merges them)."""
+    out = []
+    for s in block:
+        if rng.random() < 0.12:
+            r = rng.random()
+            if r < 0.4 and not (out and out[-1]['k'] == 'include'):
+                out.append({'k': 'include', 'includes': [
+                    ({'url': rng.choice(SYSTEM_URLS), 'system': True} if rng.random() < 0.4 else {'url': rng.choice(URLS), 'system': False})
+                    for _ in range(rng.randint(1, 3))]})
+            elif r < 0.6:
+                out.append({'k': 'label', 'name': rng.choice(BAD_LABELS) if rng.random() < 0.02 else rng.choice(LABELS)})
+            elif r < 0.8:
+                out.append({'k': 'jump', 'name': rng.choice(LABELS), 'c': None})
+            else:
+                out.append({'k': 'jump', 'name': rng.choice(LABELS),
+                            'c': progen.wf_binary(rng.choice(['<', '==', '&&']), progen.var(rng.choice(['a', 'n'])),
+                                                  progen.group(progen.call('arrayNew', progen.num(rng.randint(0, 3)))))})
+        s = dict(s)
+        k = s['k']
+        if k == 'include' and out and out[-1]['k'] == 'include':
+            continue
+        if k == 'if':
+            s['t'] = decorate(s['t'], rng, depth + 1)
+            node = s
+            while node.get('else') is not None:
+                e = dict(node['else'])
+                node['else'] = e
+                if e['k'] == 'else':
+                    e['b'] = decorate(e['b'], rng, depth + 1)
+                    break
+                e['t'] = decorate(e['t'], rng, depth + 1)
+                node = e
+        elif k in ('while', 'for'):
+            s['b'] = decorate(s['b'], rng, depth + 1)
+        elif k == 'func':
+            s['b'] = decorate(s['b'], rng, depth + 1)
+            if rng.random() < 0.3:
+                s['async'] = True
+            if rng.random() < 0.15:
+                s['lastArgArray'] = True
+        out.append(s)
+    return out
+
+
+def _line_kinds(block, acc):
+    for s in block:
+        k = s['k']
+        acc.add({'expr': 'assign' if s.get('name') else 'call', 'ret': 'return-value' if s.get('e') else 'return',
+                 'jump': 'jumpif' if s.get('c') else 'jump', 'for': 'for-index' if s.get('index') else 'for'}.get(k, k))
+        if k == 'func' and s.get('async'):
+            acc.add('async')
+        if k == 'func' and s.get('lastArgArray'):
+            acc.add('variadic')
+        if k == 'include':
+            acc.add('include-system' if any(i.get('system') for i in s['includes']) else 'include-quoted')
+        if k == 'if':
+            _line_kinds(s['t'], acc)
+            els = s.get('else')
+            while els is not None:
+                acc.add(els['k'])
+                _line_kinds(els['b'] if els['k'] == 'else' else els['t'], acc)
+                els = els.get('else') if els['k'] == 'elif' else None
+        elif k in ('while', 'for', 'func'):
+            _line_kinds(s['b'], acc)
+    return acc
+
+
+PRINT_CORPUS = [
+    # every line kind once, awkward spellings
+    [{'k': 'include', 'includes': [{'url': "it's\\here.bare", 'system': False}, {'url': 'unittest.bare', 'system': True}]},
+     {'k': 'expr', 'name': 'if', 'e': progen.num(1)},
+     {'k': 'func', 'fid': 0, 'name': 'walk', 'args': ['xs', 'in'], 'lastArgArray': True, 'async': True, 'b': [
+         {'k': 'if', 'c': progen.wf_binary('==', progen.var('in'), progen.string('a:b # c')), 't': [{'k': 'ret', 'e': None}],
+          'else': {'k': 'elif', 'c': progen.unop('!', progen.var('xs')), 't': [{'k': 'ret', 'e': progen.unop('-', progen.num(1))}],
+                   'else': {'k': 'else', 'b': [{'k': 'expr', 'name': None, 'e': progen.call('systemLog', progen.string("it's \\ :"))}]}}},
+         {'k': 'for', 'value': 'in', 'index': 'for', 'vals': progen.var('xs'), 'b': [
+             {'k': 'while', 'c': progen.var('[a b]'), 'b': [{'k': 'if', 'c': progen.var('in'), 't': [{'k': 'break'}], 'else': None},
+                                                          {'k': 'if', 'c': progen.var('for'), 't': [{'k': 'continue'}], 'else': None}]},
+             {'k': 'if', 'c': progen.var('in'), 't': [{'k': 'continue'}], 'else': None}]},
+         {'k': 'for', 'value': 'v', 'index': None, 'vals': progen.call('arrayNew', progen.num(Fraction(5, 2)), progen.num(10)), 'b': []}]},
+     {'k': 'func', 'fid': 1, 'name': 'noArgs', 'args': [], 'lastArgArray': True, 'async': False, 'b': []},
+     {'k': 'label', 'name': 'top'}, {'k': 'jump', 'name': 'top', 'c': None},
+     {'k': 'jump', 'name': 'top', 'c': progen.group(progen.wf_binary('>', progen.var('n'), progen.call('mathMax', progen.num(1), progen.num(2))))},
+     {'k': 'ret', 'e': progen.var('return')}],
+    [],
+    # not printable (the printer says so): label `else`, expression statement that is not a call, string with a line feed
+    [{'k': 'label', 'name': 'else'}],
+    [{'k': 'expr', 'name': None, 'e': progen.wf_binary('==', progen.var('a'), progen.var('b'))}],
+    [{'k': 'expr', 'name': 's', 'e': progen.string('two\nlines')}],
+    [{'k': 'include', 'includes': [{'url': 'a>b', 'system': True}]}],
+]
+
+
+def stream_print_parse(ctx, parser):
+    rng = ctx.rng('print-parse')
+    st = ctx.stream('print-parse',
+                    'structured programs (generator + includes/labels/jumps/async/variadic headers) -> Lean printer '
+                    'PrintScript.printScript Print.printExpr -> REAL parse_script(text) vs Lean lowerProgram for the same program '
+                    '(= what C01.parseScript_printExpr proves the text-level parser MODEL returns); oracle: reference lowering in '
+                    'Python; non-trivial = printable (C01.SourcePrintable) and contains a block statement')
+    progs = [progen.assign_fids(copy.deepcopy(p)) for p in PRINT_CORPUS]
+    for _ in range(ctx.scale(300, 8000)):
+        gen = progen.Gen(rng, max_depth=rng.choice([2, 3, 4, 5]), allow_raw=True)
+        progs.append(progen.assign_fids(decorate(gen.program(), rng)))
+    reqs = []
+    for prog in progs:
+        reqs.append({'op': 'printScript', 'prog': prog})
+        reqs.append({'op': 'lower', 'prog': prog})
+    resps = ctx.driver.batch(reqs)
+    n_printable = 0
+    for ix, prog in enumerate(progs):
+        pr, lo = resps[2 * ix], resps[2 * ix + 1]
+        text = pr.get('text')
+        kinds = sorted(_line_kinds(prog, set()))
+        if not pr.get('printable'):
+            # outside the hypotheses of the theorem: nothing is claimed about the text
+            st.case(['unprintable', text], nontrivial=False, tags=['unprintable'])
+            continue
+        n_printable += 1
+        try:
+            impl = progen.canon_script(parser.parse_script(text), with_fid=False)
+        except Exception as exc:  # pylint: disable=broad-except
+            impl = {'error': f'{type(exc).__name__}: {getattr(exc, "error", exc)}'}
+        st.case(text, nontrivial=any(k in kinds for k in ('if', 'while', 'for', 'for-index', 'func')), tags=kinds)
+        ctx.compare('print-parse', text, impl, progen.round_script_numbers(lo.get('spec')))
+        ctx.compare('print-parse-mirror', text, impl, progen.round_script_numbers(lo.get('mirror')))
+        want = expected_model(prog)
+        if impl != want:
+            ctx.witness('print-parse-lowering', {'text': text, 'prog': prog}, want, impl, explained_by_f7=False)
+    if n_printable * 10 < len(progs) * 9:
+        ctx.broken.append(f'correspondence stream print-parse: only {n_printable}/{len(progs)} generated programs are printable')
 
 
 def disagreement_known(d, known):
@@ -180,6 +450,12 @@ def search(ctx):
 def replay(witness):
     parser = fw.impl()['parser']
     inp = witness['input']
+    if witness.get('oracle') == 'print-parse-lowering':
+        try:
+            got = progen.canon_script(parser.parse_script(inp['text']), with_fid=False)
+        except Exception as exc:  # pylint: disable=broad-except
+            got = {'error': f'{type(exc).__name__}: {getattr(exc, "error", exc)}'}
+        return got != witness['expected']
     model = parser.parse_script(inp['text'])
     impl = progen.strip_hidden(progen.run_impl(model, inp['globals'], max_statements=400))
     return impl != witness['expected']
